@@ -25,6 +25,7 @@ def generate(r, tier, prop):
     p_base = r.choice([0.5, 0.75, 0.95])
     p_second_base = r.choice([0.1, 0.2, 0.5])
     p_alias = r.choice([0.1, 0.15, 0.4])
+    p_diamond = r.choice([0.0, 0.0, 0.35])
     steps = []
     classes = {}  # name -> {"bases": [...], "has": {member: kind}, "eff_pre": {member: bool}, "snapnames": {member: [names]}, "root_members": set}
     funcs = []
@@ -75,7 +76,19 @@ def generate(r, tier, prop):
             name = "K%d" % nk
             nk += 1
             bases = []
-            if classes and r.random() < p_base:
+            diamond = None
+            if len(classes) >= 3 and r.random() < p_diamond:
+                # two siblings as bases (a diamond over their common parent)
+                sibs = {}
+                for c in sorted(classes):
+                    for b in classes[c]["bases"][:1]:
+                        sibs.setdefault(b, []).append(c)
+                cands = [(b, cs) for b, cs in sorted(sibs.items()) if len(cs) >= 2]
+                if cands:
+                    top, cs = r.choice(cands)
+                    bases = r.sample(cs, 2)
+                    diamond = top
+            if not bases and classes and r.random() < p_base:
                 bases.append(r.choice(sorted(classes)))
                 if len(classes) > 1 and r.random() < p_second_base:
                     b2 = r.choice(sorted(classes))
@@ -96,6 +109,12 @@ def generate(r, tier, prop):
                     spec["init"]["post"] = [_cspec(r, forms)]
             pool = list(MEMBER_POOL)
             r.shuffle(pool)
+            if diamond is not None:
+                # override a member of the common ancestor (preferably one with snapshots) in the most derived class
+                anc = [(m, classes[diamond]["own"][m]["kind"]) for m in sorted(classes[diamond]["own"]) if classes[diamond]["own"][m]["kind"] != "alias"]
+                anc.sort(key=lambda x: not classes[diamond]["own"][x[0]]["snaps"])
+                if anc:
+                    pool = [anc[0]] + [p for p in pool if p[0] != anc[0][0]]
             for m, kind in pool[: r.randint(1, 3)]:
                 ms = {"name": m, "kind": kind}
                 base_has = [b for b in bases if has_member(b, m)]
